@@ -42,9 +42,9 @@ Theorem authorize_par_ok_facts cfg s cp uri a :
       {| az_rtype := RCode; az_client := r_client pr; az_redirect := r_redirect pr; az_scopes := r_rscopes pr; az_granted := az_granted a;
          az_aud := r_raud pr; az_gaud := az_gaud a; az_subject := az_subject a;
          az_challenge := if String.eqb (r_challenge pr) "" then az_challenge a else r_challenge pr;
-         az_method := if String.eqb (r_method pr) "" then az_method a else r_method pr |})) = "".
+         az_method := if String.eqb (r_method pr) "" then az_method a else r_method pr; az_mode := r_mode pr |})) = "".
 Proof.
-  unfold authorize_par.
+  rewrite authorize_par_err. unfold authorize_par0.
   destruct (key_of s uri) as [k|]; [|discriminate].
   destruct (par (st s) k) as [pr|] eqn:Ep; [|discriminate].
   destruct (before _ _) eqn:Eb; [discriminate|].
@@ -57,7 +57,7 @@ Qed.
 Theorem authorize_par_consumes cfg s cp uri a k pr :
   k < next_key s -> key_of s uri = Some k -> par (st s) k = Some pr -> par (st (fst (authorize_par cfg s cp uri a))) k = None.
 Proof.
-  intros Hk Hkey Hp. unfold authorize_par. rewrite Hkey, Hp.
+  intros Hk Hkey Hp. rewrite authorize_par_fst. unfold authorize_par0. rewrite Hkey, Hp.
   destruct (before _ _); [cbn; apply upd_eq|].
   destruct (negb (Nat.eqb cp (r_client pr))); [cbn; apply upd_eq|].
   match goal with |- context [authorize_core cfg ?s1 ?cl ?a'] => remember s1 as s1v eqn:Es1; remember a' as av eqn:Eav end.
@@ -145,7 +145,7 @@ Proof.
     destruct (fresh_rid s) as [rid s1] eqn:E1. destruct (fresh_rid_spec _ _ _ E1) as [_ [_ [H1 [_ [Hk1 _]]]]].
     destruct (mint s1 KPar rid) as [k0 s2] eqn:E2. destruct (mint_spec _ _ _ _ _ E2) as [Hk0 [_ [H2 _]]].
     cbn. rewrite upd_neq by lia. congruence.
-  - unfold authorize_par.
+  - rewrite authorize_par_fst. unfold authorize_par0.
     destruct (key_of s uri) as [k0|]; [|assumption].
     destruct (par (st s) k0) as [pr|]; [|assumption].
     assert (Hd : upd (par (st s)) k0 None k = None) by (upd_case k k0; [reflexivity|assumption]).
@@ -197,7 +197,7 @@ Proof.
   { apply par_gone_run.
     - pose proof (next_key_step cfg s1 (OAuthorizePAR cp uri a)) as Hn. cbn [step] in Hn. lia.
     - eapply authorize_par_consumes; eassumption. }
-  unfold authorize_par. now rewrite Hk', Hgone.
+  unfold authorize_par, authorize_par0. now rewrite Hk', Hgone.
 Qed.
 
 (* when pushing is enforced, an authorization request without a request_uri of the configured prefix is refused *)
@@ -208,13 +208,13 @@ Proof. intros H. unfold authorize. now rewrite H. Qed.
 (* authoritative: the authorization proceeds with the pushed redirect URI, scopes, audience and client, and with
    the pushed PKCE parameters whenever the pushed form carried them; the query only contributes the resource
    owner's decision (and PKCE parameters the pushed form did not contain) *)
-Theorem pushed_parameters_authoritative cfg s cp uri a a' :
+Lemma pushed_parameters_authoritative0 cfg s cp uri a a' :
   az_granted a = az_granted a' -> az_gaud a = az_gaud a' -> az_subject a = az_subject a' ->
   (forall k pr, key_of s uri = Some k -> par (st s) k = Some pr ->
      (r_challenge pr = "" -> az_challenge a = az_challenge a') /\ (r_method pr = "" -> az_method a = az_method a')) ->
-  authorize_par cfg s cp uri a = authorize_par cfg s cp uri a'.
+  authorize_par0 cfg s cp uri a = authorize_par0 cfg s cp uri a'.
 Proof.
-  intros Hg Hga Hs Hp. unfold authorize_par.
+  intros Hg Hga Hs Hp. unfold authorize_par0.
   destruct (key_of s uri) as [k|] eqn:Ek; [|reflexivity].
   destruct (par (st s) k) as [pr|] eqn:Ep; [|reflexivity].
   destruct (Hp k pr eq_refl Ep) as [Hc Hm].
@@ -223,4 +223,27 @@ Proof.
   rewrite Hg, Hga, Hs.
   destruct (String.eqb_spec (r_challenge pr) ""); destruct (String.eqb_spec (r_method pr) "");
     rewrite ?Hc, ?Hm by assumption; reflexivity.
+Qed.
+
+(* whatever else the query carries - response_mode, redirect_uri, scope, audience, client-chosen values - is ignored *)
+Theorem pushed_parameters_authoritative cfg s cp uri a a' :
+  az_granted a = az_granted a' -> az_gaud a = az_gaud a' -> az_subject a = az_subject a' ->
+  (forall k pr, key_of s uri = Some k -> par (st s) k = Some pr ->
+     (r_challenge pr = "" -> az_challenge a = az_challenge a') /\ (r_method pr = "" -> az_method a = az_method a')) ->
+  authorize_par cfg s cp uri a = authorize_par cfg s cp uri a'.
+Proof.
+  intros Hg Hga Hs Hp. unfold authorize_par.
+  rewrite (pushed_parameters_authoritative0 cfg s cp uri a a' Hg Hga Hs Hp). reflexivity.
+Qed.
+
+(* the answer is written in the pushed response mode, whatever the query says *)
+Theorem pushed_response_mode_authoritative cfg s cp uri a k pr :
+  key_of s uri = Some k -> par (st s) k = Some pr -> r_mode pr <> "" -> r_mode pr <> "query" ->
+  o_err (snd (authorize_par cfg s cp uri a)) = "" -> o_scopes (snd (authorize_par cfg s cp uri a)) = [r_mode pr].
+Proof.
+  intros Hk Hp Hm Hq. unfold authorize_par. rewrite Hk, Hp. unfold with_mode, reported_mode.
+  destruct (String.eqb_spec (r_mode pr) "query"); [contradiction|].
+  destruct (String.eqb_spec (o_err (snd (authorize_par0 cfg s cp uri a))) "") as [He|He]; cbn [andb].
+  - destruct (String.eqb_spec (r_mode pr) ""); [contradiction|]. cbn. reflexivity.
+  - intros H. contradiction.
 Qed.
